@@ -37,6 +37,13 @@ Dot3(a, b) == a[1] * b[1] + a[2] * b[2] + a[3] * b[3]
 Cross3(a, b) == <<a[2] * b[3] - a[3] * b[2], a[3] * b[1] - a[1] * b[3], a[1] * b[2] - a[2] * b[1]>>
 Det3(a, b, c) == Dot3(a, Cross3(b, c))
 Norm2(a) == Dot3(a, a)
+\* sign of a determinant of large lattice vectors without 32-bit overflow: divide all nine components by their gcd first
+RECURSIVE Gcd(_, _)
+Gcd(a, b) == IF b = 0 THEN Abs(a) ELSE Gcd(Abs(b), Abs(a) % Abs(b))
+GcdV(a) == Gcd(a[1], Gcd(a[2], a[3]))
+SgnDet3(a, b, c) == LET g == Gcd(GcdV(a), Gcd(GcdV(b), GcdV(c)))
+                        r(v) == IF g = 0 THEN v ELSE <<v[1] \div g, v[2] \div g, v[3] \div g>>
+                    IN Sgn(Det3(r(a), r(b), r(c)))
 VMin(a, b) == <<Min2(a[1], b[1]), Min2(a[2], b[2]), Min2(a[3], b[3])>>
 VMax(a, b) == <<Max2(a[1], b[1]), Max2(a[2], b[2]), Max2(a[3], b[3])>>
 Zero3 == <<0, 0, 0>>
@@ -98,7 +105,7 @@ WellFormedSrc(s) ==
        [] s.cls = "CylinderSegment" -> /\ Len(s.dim) = 5 /\ 0 <= s.dim[1] /\ s.dim[1] < s.dim[2] /\ s.dim[3] > 0 /\ s.dim[3] % 2 = 0
                                        /\ s.dim[4] < s.dim[5] /\ s.dim[5] - s.dim[4] <= 24 /\ s.dim[4] >= -24 /\ s.dim[5] <= 24
        [] s.cls \in {"Sphere", "Circle"} -> Len(s.dim) = 1 /\ s.dim[1] > 0 /\ s.dim[1] % 2 = 0
-       [] s.cls = "Tetrahedron" -> Len(s.verts) = 4 /\ Det3(Sub3(s.verts[2], s.verts[1]), Sub3(s.verts[3], s.verts[1]), Sub3(s.verts[4], s.verts[1])) # 0
+       [] s.cls = "Tetrahedron" -> Len(s.verts) = 4 /\ SgnDet3(Sub3(s.verts[2], s.verts[1]), Sub3(s.verts[3], s.verts[1]), Sub3(s.verts[4], s.verts[1])) # 0
        [] s.cls = "Triangle" -> Len(s.verts) = 3 /\ Cross3(Sub3(s.verts[2], s.verts[1]), Sub3(s.verts[3], s.verts[1])) # Zero3
        [] s.cls = "Polyline" -> Len(s.verts) >= 4 /\ s.verts[1] = s.verts[Len(s.verts)] /\ \A i \in 1..(Len(s.verts) - 1) : s.verts[i] # s.verts[i + 1]
        [] OTHER -> TRUE
@@ -111,7 +118,7 @@ CartChart(R, p) == Chart("cart", R, p, Zero3, IdM, 1)
 CylChart(R, p) == Chart("cyl", R, p, Zero3, IdM, 1)
 SphChart(R, p) == Chart("sph", R, p, Zero3, IdM, 1)
 WellFormedChart(ch) == /\ ch.type \in {"cart", "cyl", "sph", "aff"} /\ IsRot(ch.R) /\ ch.n >= 1
-                       /\ Det3(ch.e[1], ch.e[2], ch.e[3]) > 0              \* right-handed: outward normals
+                       /\ SgnDet3(ch.e[1], ch.e[2], ch.e[3]) > 0           \* right-handed: outward normals
                        /\ (ch.type # "aff" => ch.o = Zero3 /\ ch.e = IdM /\ ch.n = 1)
 \* which chart axes are linear radii (must be >= 0), polar angles (0..12) and azimuths (period 24)
 IsRadius(ch, k) == (ch.type \in {"cyl", "sph"} /\ k = 1)
@@ -518,4 +525,19 @@ PointTol8(pt) ==
   ELSE LET e == BodyMaxExt(pt.src)
            x == (e * 10000) \div pt.rho + 1                          \* ext/rho in units of 1e-4 (<= 100)
        IN IF Centred(pt.src) THEN 10 + x * x ELSE 10 + 2 * x * 10000
+
+(* ------------------------------------------------------------------- local form: mean-value law (C01) *)
+(* In a source-free ball every Cartesian component f of B and of H is harmonic (div B = 0, curl H = 0, B = mu0 H: the integral   *)
+(* laws for infinitesimal cells).  Hence   f(c+h e1) + f(c-h e1) + ... + f(c-h e3) - 6 f(c) = O(h^4 d^4 f)  on the lattice.       *)
+(* This is the only way to see a wrong value on a set of measure zero (an axis, a switch plane): flux and circulation integrals   *)
+(* cannot.  pt == [kind |-> "harmonic", src, obs |-> c (global lattice point), field, rho |-> h]; the premise is that the source  *)
+(* is farther than 200 h from c (gap of the bounding boxes).  The harness logs the seven field vectors (c, +x, -x, +y, -y, +z, -z) *)
+(* in units of 1e-8 of the largest of their components.                                                                           *)
+HarmGap(pt) == LET sb == SrcBox(pt.src) IN SetMax({Max2(pt.obs[k] - sb.hi[k], sb.lo[k] - pt.obs[k]) : k \in 1..3})
+HarmPremise(pt) == /\ WellFormedSrc(pt.src) /\ pt.field \in {"B", "H"} /\ pt.rho > 0 /\ pt.rho <= 1000
+                   /\ \A k \in 1..3 : Abs(pt.obs[k]) <= 1000000
+                   /\ HarmGap(pt) >= 200 * pt.rho
+\* 6 quantization errors + 1e-7 + truncation: |h^4/12 sum d^4 f| <= 1000 (h/L)^4 sup|f| generously (Cauchy estimates on the ball of radius L)
+HarmTol8(pt) == LET x == (1000 * pt.rho) \div HarmGap(pt) + 1 IN 20 + (x * x * x * x) \div 10
+HarmResidual(q, k) == q[2][k] + q[3][k] + q[4][k] + q[5][k] + q[6][k] + q[7][k] - 6 * q[1][k]
 =============================================================================
